@@ -159,7 +159,9 @@ def params_tactic (c : Cfg) (params : List Nat) (one_line_budget : Nat) : Tactic
 
 /-! ## the decisions of `rewrite_fn_base` (items.rs:2445) on a signature whose pieces render on one line -/
 
-/-- The measures of a signature. -/
+/-- The measures of a signature.  Assumed: name and generics together are wider than one column (a
+one-column name makes `snuggle_angle_bracket` true in `rewrite_fn_base`, which suppresses the forced line
+break of the visual style; not modelled). -/
 structure Sig where
   indent : Indent
   /-- width of `result` when the parameters are computed: qualifiers, `fn`, name, generics -/
